@@ -202,6 +202,9 @@ func (o *functionOperator) Next(ctx context.Context) ([]model.StepVector, error)
 			continue
 		}
 
+		// Functions can drop samples (e.g. clamp with max < min), so the
+		// vector is compacted in place while it is transformed.
+		n := 0
 		for i := range vector.Samples {
 			o.pointBuf[0].V = vector.Samples[i]
 			// Call function by separately passing major input and scalars.
@@ -211,9 +214,16 @@ func (o *functionOperator) Next(ctx context.Context) ([]model.StepVector, error)
 				StepTime:     vector.T,
 				ScalarPoints: o.scalarPoints[batchIndex],
 			})
+			if result.Point == InvalidSample.Point {
+				continue
+			}
 
-			vector.Samples[i] = result.V
+			vector.Samples[n] = result.V
+			vector.SampleIDs[n] = vector.SampleIDs[i]
+			n++
 		}
+		vectors[batchIndex].Samples = vector.Samples[:n]
+		vectors[batchIndex].SampleIDs = vector.SampleIDs[:n]
 	}
 
 	return vectors, nil
